@@ -15,6 +15,7 @@ import (
 	"testing"
 	"time"
 
+	"github.com/zmap/zcrypto/x509"
 	"github.com/zmap/zlint/v3"
 	"github.com/zmap/zlint/v3/lint"
 	"pgregory.net/rapid"
@@ -278,6 +279,16 @@ func runProgram(p program) (sig, msg string) {
 	return "", ""
 }
 
+// appliesSafely asks a fresh instance of the lint whether it applies (a panic counts as no).
+func appliesSafely(l *lint.CertificateLint, c *x509.Certificate) (ok bool) {
+	defer func() {
+		if recover() != nil {
+			ok = false
+		}
+	}()
+	return l.Lint().CheckApplies(c)
+}
+
 func mustJSON(v interface{}) json.RawMessage {
 	b, _ := json.Marshal(v)
 	return b
@@ -314,19 +325,52 @@ func TestC10(t *testing.T) {
 	// shard's programs every corpus object (hence every lint body that the corpus reaches) is linted
 	next := shard * 97
 	nextCRL := shard * 5
+	certLints := lint.GlobalRegistry().CertificateLints().Lints()
+	sort.Slice(certLints, func(i, j int) bool { return certLints[i].Name < certLints[j].Name })
+	nextLint := shard * ((len(certLints) + nshards - 1) / nshards)
+	type parsedObj struct {
+		idx  int
+		cert *x509.Certificate
+	}
+	var parsedCorpus []parsedObj
+	for i, o := range co.Certs {
+		if c, ok := gen.ParseCert(o.DER); ok {
+			parsedCorpus = append(parsedCorpus, parsedObj{i, c})
+		}
+	}
 	t.Run("programs", func(t *testing.T) {
 		rapid.Check(t, func(rt *rapid.T) {
 			var p program
 			p.GOMAXPROCS = procs
-			p.Runs = 3
+			p.Runs = stats.Scale(2, 3)
 			for i, n := 0, rapid.IntRange(1, 3).Draw(rt, "nfilters"); i < n; i++ {
 				p.Filters = append(p.Filters, engine.DrawValidFilter(rt, names))
 			}
-			nobj := rapid.IntRange(6, 24).Draw(rt, "nobj")
+			// lint focus: three certificate lints per program (the registry is walked round-robin, so one quick run
+			// visits nearly every lint once), up to four corpus certificates each on which the lint declares
+			// itself applicable - their bodies then run side by side in the sweeping workers
+			for i := 0; i < 3; i++ {
+				l := certLints[nextLint%len(certLints)]
+				nextLint++
+				found := 0
+				for j := 0; j < len(parsedCorpus) && found < 4; j++ {
+					k := (j + nextLint*37) % len(parsedCorpus)
+					if appliesSafely(l, parsedCorpus[k].cert) {
+						found++
+						o := co.Certs[parsedCorpus[k].idx]
+						p.Objects = append(p.Objects, engine.Case{Kind: o.Kind, DER: o.DER, Base: o.Name})
+					}
+				}
+			}
+			nobj := rapid.IntRange(3, 12).Draw(rt, "nobj")
 			// one program in four concentrates on revocation lists, one in eight on OCSP responses: lints of
 			// those kinds are few, so shared state inside them only shows when many workers lint that kind
 			// at the same time (the corpus CRLs are walked round-robin, findings included)
 			focus := rapid.IntRange(0, 7).Draw(rt, "focus")
+			if focus <= 2 {
+				p.Objects = nil // kind-focused programs stay pure
+				nobj += 6
+			}
 			for i := 0; i < nobj; i++ {
 				okind := rapid.IntRange(0, 9).Draw(rt, "okind")
 				if focus <= 1 && okind < 8 {
@@ -366,6 +410,7 @@ func TestC10(t *testing.T) {
 					p.Objects = append(p.Objects, engine.Case{Kind: o.Kind, DER: o.DER, Base: o.Name})
 				}
 			}
+			nobj = len(p.Objects)
 			// a few objects whose verdict depends on a configurable lint's option
 			if so := sensitiveObjects(); len(so) > 0 {
 				for i, n := 0, rapid.IntRange(1, 3).Draw(rt, "nsens"); i < n; i++ {
@@ -373,7 +418,7 @@ func TestC10(t *testing.T) {
 				}
 				nobj = len(p.Objects)
 			}
-			G := rapid.IntRange(2, 16).Draw(rt, "goroutines")
+			G := rapid.IntRange(3, 16).Draw(rt, "goroutines")
 			linters, others := 0, 0
 			for w := 0; w < G; w++ {
 				var ops []op
@@ -390,6 +435,16 @@ func TestC10(t *testing.T) {
 						o.Name = names[rapid.IntRange(0, len(names)-1).Draw(rt, "name")]
 					}
 					ops = append(ops, o)
+				}
+				if w < 2 {
+					// the first three workers are linters that sweep every object of the program (each starting
+					// elsewhere): whatever lint bodies these objects reach run side by side, systematically
+					var sweep []op
+					for i := 0; i < nobj; i++ {
+						sweep = append(sweep, op{Kind: "lint", Obj: (i + w*(nobj/2+1)) % nobj, Reg: 0, Yield: i%5 == w})
+					}
+					ops = append(sweep, ops...)
+					role = 0
 				}
 				if role <= 1 {
 					linters++
